@@ -329,3 +329,47 @@ def dist_transform(text, valuations):
             pairs.append(pr)
     res["pairs"] = pairs
     return res
+
+
+def history(objects, kmax):
+    """history sensitivity: several distribution objects that share some but not all parameters live in ONE
+    process; the same moments are asked in two different orders (pass A: objects in the given order, object-major,
+    k ascending; pass B: fresh objects in reverse order, k-major, k descending).  Every answer is returned."""
+    res = {"objects": objects, "passes": []}
+
+    def ask(d, k):
+        try:
+            tag, val = _value(d.get_moment(k), None)
+            return {"tag": tag, "val": val}
+        except Exception as e:  # noqa
+            return {"tag": "error", "err": _err(e, "get_moment")}
+
+    def sup(d):
+        try:
+            return _support(d, None)
+        except Exception as e:  # noqa
+            return {"error": _err(e, "support")}
+
+    try:
+        ds = [_factory(o["name"], o["params"]) for o in objects]
+    except Exception as e:  # noqa
+        res["construct_error"] = _err(e, "construct")
+        return res
+    a = []
+    for i, d in enumerate(ds):
+        for k in range(kmax + 1):
+            a.append({"obj": i, "k": k, **ask(d, k)})
+    res["passes"].append({"order": "object-major", "answers": a, "supports": [sup(d) for d in ds]})
+    ds2 = [_factory(o["name"], o["params"]) for o in objects]
+    b = []
+    for k in range(kmax, -1, -1):
+        for i in range(len(ds2) - 1, -1, -1):
+            b.append({"obj": i, "k": k, **ask(ds2[i], k)})
+    res["passes"].append({"order": "k-major-reversed", "answers": b, "supports": [sup(d) for d in ds2]})
+    # and once more on the first objects (answers must not have changed after the second batch was created and asked)
+    c = []
+    for i, d in enumerate(ds):
+        for k in (kmax, 1):
+            c.append({"obj": i, "k": k, **ask(d, k)})
+    res["passes"].append({"order": "re-ask-first-objects", "answers": c, "supports": [sup(d) for d in ds]})
+    return res
